@@ -19,8 +19,13 @@ type RangeLoop struct {
 	Kind   string    // "index" | "iter"
 }
 
-// RangeLoops finds every range loop of fn.
+// RangeLoops finds every range loop of fn, and every walk over a slice written with an explicit
+// ascending index (IndexForLoops), which is the same loop in another form.
 func RangeLoops(fn *ssa.Function) []*RangeLoop {
+	return append(rangeLoopsOnly(fn), IndexForLoops(fn)...)
+}
+
+func rangeLoopsOnly(fn *ssa.Function) []*RangeLoop {
 	var out []*RangeLoop
 	for _, b := range fn.Blocks {
 		if len(b.Instrs) == 0 {
@@ -86,11 +91,78 @@ func RangeLoops(fn *ssa.Function) []*RangeLoop {
 	return out
 }
 
-// LoopOver returns the range loops of fn whose collection satisfies coll.
+// LoopOver returns the range loops of fn whose collection satisfies coll; when there is none,
+// the `for i := k; i < len(coll); i++ { … coll[i] … }` loops over it (the same walk written with
+// an index).
 func LoopsOver(fn *ssa.Function, coll func(ssa.Value) bool) []*RangeLoop {
 	var out []*RangeLoop
 	for _, rl := range RangeLoops(fn) {
 		if rl.Coll != nil && coll(rl.Coll) {
+			out = append(out, rl)
+		}
+	}
+	return out
+}
+
+// IndexForLoops finds the explicit ascending index walks `for i := k; i < len(x); i++` of fn in
+// which x[i] is read: Coll is x, Index the loop variable, Elem the element read.
+func IndexForLoops(fn *ssa.Function) []*RangeLoop {
+	var out []*RangeLoop
+	for _, rl := range ForLoops(fn) {
+		iff := rl.Header.Instrs[len(rl.Header.Instrs)-1].(*ssa.If)
+		cmp, ok := iff.Cond.(*ssa.BinOp)
+		if !ok || cmp.Op != token.LSS || rl.Index == nil {
+			continue
+		}
+		lc, ok := cmp.Y.(*ssa.Call)
+		if !ok {
+			continue
+		}
+		bi, ok := lc.Call.Value.(*ssa.Builtin)
+		if !ok || bi.Name() != "len" {
+			continue
+		}
+		x := lc.Call.Args[0]
+		same := func(v ssa.Value) bool {
+			if v == x || Strip(v) == Strip(x) {
+				return true
+			}
+			// the slice re-read from the same place (no CSE in go/ssa): same field of the same base, or same local
+			b1, f1, ok1 := FieldLoad(v)
+			b2, f2, ok2 := FieldLoad(x)
+			return ok1 && ok2 && f1 == f2 && Strip(b1) == Strip(b2)
+		}
+		// the step is +1
+		phi, _ := rl.Index.(*ssa.Phi)
+		stepOK := false
+		if phi != nil {
+			for _, e := range phi.Edges {
+				if bo, ok := e.(*ssa.BinOp); ok && bo.Op == token.ADD && bo.X == ssa.Value(phi) && VConstInt(1)(bo.Y) {
+					stepOK = true
+				}
+			}
+		}
+		if !stepOK || rl.Index.Referrers() == nil {
+			continue
+		}
+		for _, r := range *rl.Index.Referrers() {
+			if ia, ok := r.(*ssa.IndexAddr); ok && ia.Index == rl.Index && same(ia.X) && rl.Body.Dominates(ia.Block()) {
+				rl.Coll = x
+				if ia.Referrers() != nil {
+					for _, r2 := range *ia.Referrers() {
+						if ld, ok := r2.(*ssa.UnOp); ok && ld.Op == token.MUL {
+							rl.Elem = ld
+						}
+					}
+				}
+			}
+			if ix, ok := r.(*ssa.Index); ok && ix.Index == rl.Index && same(ix.X) {
+				rl.Coll = x
+				rl.Elem = ix
+			}
+		}
+		if rl.Coll != nil {
+			rl.Kind = "for-index"
 			out = append(out, rl)
 		}
 	}
@@ -144,7 +216,7 @@ func (c *Ctx) LatchGated(construct string, rl *RangeLoop, clauses []Clause) bool
 func (c *Ctx) ThroughLoop(construct string, rl *RangeLoop, sink FlowPoint) bool {
 	c.touch(rl.Fn)
 	cut := func(b *ssa.BasicBlock, s int) bool { return b == rl.Header && b.Succs[s] == rl.Done }
-	q := ReachQ{Fn: rl.Fn, CutEdge: cut}
+	q := ReachQ{Fn: rl.Fn, CutEdge: cut, Descend: true}
 	if sink.Instr != nil {
 		q.Sink = SinkIs(sink.Instr)
 	} else {
